@@ -32,6 +32,9 @@ Definition ms_event (ms : mstore) (e : event) : mstore :=
          else ms
   end.
 
+(* a zero-sized component carries no data: every value of it is the unit value *)
+Definition tnorm (ms : mstore) (v : tok) : tok := if ms_unit ms then unit_tok else v.
+
 (* --- UnprotectedStorage of the wrappers --- *)
 
 (* insert: event first, then delegate *)
@@ -65,7 +68,7 @@ Definition w_access_mut (ms : mstore) (id : N) (touch : bool) (u : upd) (c : ctx
   match u with
   | UNone => (ms1, old, c1)
   | USwap v => let '(r, c2) := u_write (ms_raw ms1) id v c1 in (ms_set ms1 (ms_mask ms1) r, old, c2)
-  | USetVal z => let '(r, c2) := u_write (ms_raw ms1) id (fst old, z) c1 in (ms_set ms1 (ms_mask ms1) r, old, c2)
+  | USetVal z => let '(r, c2) := u_write (ms_raw ms1) id (tnorm ms (fst old, z)) c1 in (ms_set ms1 (ms_mask ms1) r, old, c2)
   end.
 
 (* --- MaskedStorage --- *)
@@ -119,7 +122,8 @@ Definition not_present_insert (ms : mstore) (id : N) (v : tok) (c : ctx) : mstor
 
 Inductive ins_res := InsNew | InsOld (t : tok) | InsErr (g : Z).
 
-Definition st_insert (ms : mstore) (av : aview) (e : entity) (v : tok) (c : ctx) : mstore * ins_res * ctx :=
+Definition st_insert (ms : mstore) (av : aview) (e : entity) (v0 : tok) (c : ctx) : mstore * ins_res * ctx :=
+  let v := tnorm ms v0 in
   if av_alive av e then
     if NS.mem (fst e) (ms_mask ms) then
       (* swap through get_mut(id).access_mut() *)
@@ -156,7 +160,11 @@ Inductive entry_op :=
 
 Inductive entry_res := EnErr (g : Z) | EnNone | EnTok (t : tok).
 
-Definition st_entry (ms : mstore) (av : aview) (e : entity) (o : entry_op) (c : ctx) : mstore * entry_res * ctx :=
+Definition st_entry (ms : mstore) (av : aview) (e : entity) (o0 : entry_op) (c : ctx) : mstore * entry_res * ctx :=
+  let o := match o0 with
+           | EnOrInsert v => EnOrInsert (tnorm ms v)
+           | EnReplace v => EnReplace (tnorm ms v)
+           | o => o end in
   let id := fst e in
   let drop_arg c := match o with
                     | EnOrInsert v | EnReplace v => cx_drop c v
